@@ -33,6 +33,23 @@ theorem equiv_symm {f g : ZF K} (h : f ≈ g) : g ≈ f := ALV.C05.Equiv.symm h
 theorem equiv_trans {f g h : ZF K} (hf : Valid f) (hg : Valid g) (hh : Valid h)
     (h1 : f ≈ g) (h2 : g ≈ h) : f ≈ h := ALV.C05.Equiv.trans hf hg hh h1 h2
 
+/-- every filter object that the constructor builds from raw coefficients (`ZFilter(num, den)` with
+lists or dictionaries: duplicates, stored zeros, any integer powers) satisfies the invariant `Valid`
+and has a normalised denominator (a polynomial in `z⁻¹` with non-zero constant term); the constructor
+raises exactly when the denominator is the zero polynomial -/
+theorem constructed_filters_valid (numPairs denPairs : List (ℤ × K)) :
+    (C07.mk denPairs = [] → ofData numPairs denPairs = .error .value) ∧
+    (C07.mk denPairs ≠ [] → ∃ f, ofData numPairs denPairs = .ok f ∧ Valid f ∧ Norm f) := by
+  constructor
+  · intro h
+    unfold ofData ofPolys
+    rw [h]
+    simp [C07.mk, ofPairs, compact, C04.minKey]
+  · intro h
+    obtain ⟨f, _, e, v, _, _⟩ := ofPolys_spec (wf_mk numPairs) (wf_mk denPairs) h
+    obtain ⟨hp, h0⟩ := ofPolys_normal (wf_mk numPairs) (wf_mk denPairs) e
+    exact ⟨f, e, v, v, hp, h0⟩
+
 /-- every operator returns a valid filter (never raises) on valid operands -/
 theorem operators_total {f g : ZF K} (hf : Valid f) (hg : Valid g) (c : K) (n : ℕ) :
     (∃ h, add f g = .ok h ∧ Valid h) ∧ (∃ h, sub f g = .ok h ∧ Valid h) ∧
@@ -315,6 +332,11 @@ theorem subst_ring_hom {f g h : ZF K} (hf : Valid f) (hg : Valid g) (hh : Valid 
     rw [e]
     exact hA.bind fun a ha ea => hB.bind fun b hb eb => by rw [← ea, ← eb]; exact mul_den ha hb
 
+/-- `linearize()` of a filter whose delays are integers (no fractional delay to interpolate) runs and
+returns an equivalent filter -/
+theorem linearize_integer_delays {f : ZF K} (hf : Valid f) : Agree (linearize f) (.ok f) :=
+  agree_of_den (linearize_den hf) (Den.ok hf)
+
 /-! ### expression trees of any depth; the executable specification -/
 
 /-- **C05.1 for whole expression trees** (`Spec/C05.lean`: `Expr.run` evaluates a tree with the
@@ -591,6 +613,23 @@ theorem parallel_polys_fixed (f : ZF K) (t : List (ZF K)) (hv : ∀ g ∈ f :: t
   have es : sumFilters (f :: t) = .ok h := e
   exact ⟨h, es, v, by simp [parallelNumpoly, es], by simp [parallelDenpolyFixed, es], by rw [w]; simp⟩
 
+/-- **`parallel_polys`** (as coded): as long as no step of `reduce(add, filters)` takes the
+same-denominator shortcut, `denpoly` (the product of the denominators) *is* the denominator of the
+sum filter, so `numpoly / denpoly` is the sum of the parts -/
+theorem parallel_polys_no_shortcut (f : ZF K) (t : List (ZF K)) (hn : ∀ g ∈ f :: t, Norm g)
+    (hs : NoShortcut f t) :
+    ∃ h, sumFilters (f :: t) = .ok h ∧ Valid h ∧
+      parallelNumpoly (f :: t) = .ok h.num ∧ parallelDenpoly (f :: t) = .ok h.den ∧
+      val h = ((f :: t).map val).sum := by
+  obtain ⟨h, e, _, hd⟩ := foldlM_add_den t f (hn f List.mem_cons_self)
+    (fun g hg => hn g (List.mem_cons_of_mem _ hg)) hs
+  obtain ⟨h', e', v', n', _, w'⟩ := parallel_polys_fixed f t (fun g hg => (hn g hg).1)
+  have es : sumFilters (f :: t) = .ok h := e
+  obtain rfl : h' = h := by rw [es] at e'; exact (Except.ok.inj e').symm
+  refine ⟨h', es, v', n', ?_, w'⟩
+  simp only [parallelDenpoly, prodPolys, List.map_cons, List.foldl_map]
+  rw [hd]
+
 /-- … and the code as it stands does **not** have that property (defect D12): `numpoly` comes from
 the reduced sum (same-denominator shortcut: `2·num / den`) while `denpoly` is the product `den²`.
 Witness: `ParallelFilter(f, f)` with `f = (1 + z⁻¹)/(1 − z⁻¹/2)`. -/
@@ -647,6 +686,8 @@ local macro "valid_tac" : tactic => `(tactic| (unfold Valid WF; decide +kernel))
 local macro "causal_tac" : tactic =>
   `(tactic| (refine ⟨by valid_tac, by unfold IsPoly; decide +kernel, by unfold IsPoly; decide +kernel, by decide +kernel⟩))
 
+example : (ofData [(0, 1), (1, 1), (5, 0)] [(1, (2 : ℚ)), (2, -1), (1, 1)]).toOption.map (fun h => (h.num, h.den))
+    = some ([(-1, 1), (0, 1)], [(0, 1), (1, -1)]) := by decide +kernel
 example : Valid f1 ∧ Valid g1 ∧ Valid g2 ∧ Valid zz := ⟨by valid_tac, by valid_tac, by valid_tac, by valid_tac⟩
 example : Causal f1 ∧ Causal g1 ∧ Causal g2 := ⟨by causal_tac, by causal_tac, by causal_tac⟩
 example : ¬ IsPoly zz.num := by unfold IsPoly; decide +kernel
@@ -671,6 +712,7 @@ example := div_self (f := g1) (by valid_tac) (by decide)
 example := div_mul_cancel (f := f1) (g := g1) (by valid_tac) (by valid_tac) (by decide)
 example := zpow_add (f := g1) (by valid_tac) (by decide) (-2) 5
 example := pow_neg (f := g2) (by valid_tac) (by decide) 3
+example := linearize_integer_delays (f := g2) (by valid_tac)
 example := equiv_trans (f := f1) (g := f1) (h := f1) (by valid_tac) (by valid_tac) (by valid_tac) rfl rfl
 
 theorem val_zz : val zz = ι (T (-1)) := by
@@ -722,6 +764,10 @@ example := parallel_eq_sum f1 [f1, g2] (by
 example := cascade_polys f1 [g1] (by
   intro g hg; simp only [List.mem_cons, List.not_mem_nil, or_false] at hg
   rcases hg with rfl | rfl <;> valid_tac)
+example := parallel_polys_no_shortcut f1 [g2] (by
+  intro g hg; simp only [List.mem_cons, List.not_mem_nil, or_false] at hg
+  rcases hg with rfl | rfl <;>
+    exact ⟨by valid_tac, by unfold IsPoly; decide +kernel, by decide +kernel⟩) ⟨by decide +kernel, fun _ _ => trivial⟩
 /-- without the shortcut the pair of `ParallelFilter` polynomials as coded is the sum … -/
 example : (do let n ← parallelNumpoly [f1, g2]
               let d ← parallelDenpoly [f1, g2]
